@@ -173,6 +173,31 @@ CLAIMED = {
         note="Python aliasing and hash-seed dependence are runtime behaviour the model cannot exhibit; they are explored, not proved.",
         technique="Lean 4 proof of the isolation/repeatability statements on the model + runtime exploration (argument snapshots, interleavings, hash-seed sweep)",
         design="DESIGN.md §4 C11"),
+    "C14": dict(
+        text="Partial. Machine-checked (Lean 4) about a total, fuel-indexed model of the lexer, of the precedence parser and of the "
+             "parser visitor's side conditions: the lexer drops white space and comments only and reports every other unrecognised "
+             "character; a successful parse derives, in an inductive grammar relation, exactly the tokens it consumed, the assertion "
+             "list consumes every token after the declarations and is non-empty; accepted intervals satisfy 0 <= begin <= end as "
+             "durations and use declared constants only; being total Lean functions, lexer and parser terminate with ok or a "
+             "parse error on every string. The ANTLR-generated parser itself is not translated: it is tied to the model by a "
+             "correspondence run over valid texts, single-edit mutants and token soup (accept/reject, exception class, and "
+             "spec_print() vs the names computed from the model's parse tree), and its outcome class is checked on every text.",
+        note="Lean kernel + standard axioms; termination and exception-cleanliness of the real ANTLR parser are observed per text "
+             "(wall-clock limit), not proved; module imports, ROS annotations and object-typed variables not modelled; texts that "
+             "ANTLR rejects with its own 'Ambiguity ERROR' are counted and compared for cleanliness only; tie sampled.",
+        technique="Lean 4 proof (soundness of a total recursive-descent model w.r.t. an inductive grammar relation) + differential correspondence",
+        design="DESIGN.md §4 C14"),
+    "C15": dict(
+        text="Partial. Machine-checked (Lean 4) on the lexer/parser model: every alias lexes to the token of its long form (so alias "
+             "spellings give the same token stream and the same tree), ',' and ':' give the same interval, any number of redundant "
+             "parentheses around an expression give the same tree, and parsing the fully parenthesised rendering of any tree returns "
+             "that tree (round trip). Correspondence on the real front ends (STL, LTL): random formulas under aliases, separators, "
+             "0-3 redundant parentheses, minimal parenthesisation by the precedence table, optional ';' and assertion head, `unless` "
+             "sugar - same spec_print() and same evaluation results as the canonical spelling, and equal to the model's tree.",
+        note="Lean kernel + standard axioms; minimal parenthesisation (the model's precedence table vs ANTLR's) is validated by the "
+             "stream, not proved; tie sampled.",
+        technique="Lean 4 proof (lexer alias table, parser lemmas, round trip by structural induction) + metamorphic/differential correspondence",
+        design="DESIGN.md §4 C15"),
 }
 
 NOT_YET = {}
@@ -194,7 +219,7 @@ def main():
                 "level_note": c["note"],
                 "technique": c["technique"],
             })
-    na = [{"property_id": p, "reason": NOT_YET.get(p, "check not built yet (work in progress, see DESIGN.md §8); not claimed")}
+    na = [{"property_id": p, "reason": NOT_YET.get(p, "check not built yet (work in progress, see DESIGN.md §4); not claimed")}
           for p in props if p not in CLAIMED]
     m = {
         "version": 1,
